@@ -58,7 +58,6 @@ Theorem accepted_reads_back : forall guid tops s st rs,
   Forall call_ok (NewWriter guid :: tops ++ [Finalize]) ->
   wrun (writer_run fmt64 fmt32 version (NewWriter guid :: tops ++ [Finalize])) pw0 = (s, Ok (st, rs)) ->
   Forall res_ok rs ->
-  forallb pc_limits_complete (ws_pcs st) = true ->
   forallb pc_u64 (ws_pcs st) = true -> forallb im_ok (ws_imgs st) = true ->
   len (ws_exts st) < 65535 ->
   (forall xml, gen_root (fill_meta fmt64 fmt32 (ws_meta st)) = Ok xml -> len xml <= MAX_XML_SIZE) ->
@@ -74,7 +73,7 @@ Theorem accepted_reads_back : forall guid tops s st rs,
       read_meta pf64 pf32 fdiv xml = Ok (reader_view (fill_meta fmt64 fmt32 (ws_meta st))) /\
       Forall2 (reads_back rs0) is os.
 Proof.
-  intros guid tops s st rs Hu Hcalls Hrun Hok Hlc Hu64 Himok Hext Hxmlsz Hfsz.
+  intros guid tops s st rs Hu Hcalls Hrun Hok Hu64 Himok Hext Hxmlsz Hfsz.
   set (calls := NewWriter guid :: tops ++ [Finalize]) in *.
   set (p := writer_run fmt64 fmt32 version calls) in *.
   (* device <-> logical stream *)
@@ -88,6 +87,7 @@ Proof.
   destruct (complete_prog G L guid tops l st rs Hu Hwft Espec Hok)
     as (is & os & xml & bl & st1 & Hex & Hgen & Hmeta & _ & Hfp).
   rewrite <- Hmeta in Hgen. unfold gen_xml_full in Hgen.
+  pose proof (explains_limits_complete _ _ _ _ _ _ Hex) as Hlc.
   (* the metadata *)
   pose proof (meta_run G L gen_full_total version_ok calls ws_init ls_init l st rs ws_inv_init meta_inv_init Hcalls Espec)
     as (He & Hr & Hp & Hi & _).
